@@ -17,6 +17,7 @@ OBJ_TYPES = r'^(laythe_core::)?(reference::)?(obj_reference::)?(object::)?(\w+::
 KIND_OF_TY = {'LyStr': 'String', 'List': 'List', 'Tuple': 'Tuple', 'Instance': 'Instance'}
 
 kind_of = z3.Function('kind_of', z3.BitVecSort(64), z3.BitVecSort(64))
+allocated0 = z3.Function('allocated0', z3.BitVecSort(64), z3.BoolSort())   # existed before the step under analysis
 
 
 class AbsObj:
@@ -38,10 +39,12 @@ class AbsObj:
         eng.add_constraint(backing.child('id').leaf(eng, z3.BitVecSort(64)) == self.id)
 
     def data_cell(self, eng, ty):
-        key = ('objdata', self.id.sexpr())
+        """the object's data: a struct view whose fields live in per-(type, field) heap arrays indexed by identity,
+        so that aliasing between symbolic references is decided by the solver"""
+        key = ('objdata', self.id.sexpr(), norm_ty(ty))
         c = eng.memo.get(key)
         if c is None:
-            c = Cell(Lazy(ty, NameBacking('obj[' + _short(self.id) + ']')))
+            c = Cell(HeapObjStruct(norm_ty(ty), self.id))
             eng.memo[key] = c
             eng.memo[('cellobj', id(c))] = self
         return c
@@ -56,6 +59,53 @@ class AbsObj:
 
     def __repr__(self):
         return f'obj<{self.ty}>({_short(self.id)})'
+
+
+class _HeapBacking:
+    def key(self):
+        return 'heap'
+
+    def child(self, k):
+        return self
+
+
+HEAP = _HeapBacking()
+
+
+def heap_seq(eng, ty, idx, fty):
+    key = ('heap', ty_head(norm_ty(ty)), idx)
+    sq = eng.memo.get(key)
+    if sq is None:
+        sq = eng.fresh_seq(fty, NameBacking(f'heap[{sort_name(ty)}.{idx}]'), bv((1 << 64) - 1, 64))
+        eng.memo[key] = sq
+    return sq
+
+
+class HeapObjStruct(Struct):
+    """data of a managed object addressed by identity"""
+    __slots__ = ('oid',)
+
+    def __init__(self, ty, oid):
+        Struct.__init__(self, ty, {}, HEAP)
+        self.oid = oid
+
+    def field(self, eng, idx, fty):
+        c = self.f.get(idx)
+        if c is None:
+            sd = eng.P.struct_def(self.ty)
+            if sd is not None and idx < len(sd.fields):
+                fty = subst_generics(sd.fields[idx][1], sd, self.ty) if ty_kind(norm_ty(fty or '')) in ('param', None) else fty
+            c = SeqElemCell(heap_seq(eng, self.ty, idx, fty), self.oid)
+            self.f[idx] = c
+        return c
+
+    def copy_value(self, eng):
+        sd = eng.P.struct_def(self.ty)
+        out = {}
+        if sd is not None:
+            for i, (_, fty) in enumerate(sd.fields):
+                out[i] = Cell(eng.copy_value(self.field(eng, i, subst_generics(fty, sd, self.ty)).get(eng)))
+        return Struct(self.ty, out, None)
 
 
 def object_of(e, v):
@@ -137,6 +187,73 @@ def _len(e, t):
     n = str_len(t)
     e.add_constraint(z3.ULT(n, 1 << 40))
     return n
+
+
+arr_len = z3.Function('arr_len', z3.BitVecSort(64), z3.BitVecSort(64))
+
+
+class AbsArr:
+    """managed immutable-length array Array<T, H>: identity, length and an element sequence per identity"""
+    __slots__ = ('id', 'elem_ty')
+    rust_ty = 'Array'
+
+    def __init__(self, aid, elem_ty):
+        self.id = aid
+        self.elem_ty = elem_ty
+
+    def copy_value(self, eng):
+        return self
+
+    def bind_elem(self, eng, backing):
+        eng.add_constraint(backing.child('id').leaf(eng, z3.BitVecSort(64)) == self.id)
+
+    def length(self, eng):
+        n = arr_len(self.id)
+        eng.add_constraint(z3.ULT(n, 1 << 32))
+        return n
+
+    def seq(self, eng):
+        """element sequence of this array: one row of a two-level heap (array identity -> index -> element), so that two
+        references that may denote the same array see the same elements"""
+        ety = norm_ty(self.elem_ty)
+        key = ('arrheap', ety)
+        h = eng.memo.get(key)
+        if h is None:
+            proto = eng.fresh_seq(ety, NameBacking('arrproto[' + sort_name(ety) + ']'), bv(0, 64))
+            rowsort = proto.arr.sort()
+            h = dict(H=z3.Const('arrheap[' + sort_name(ety) + ']', z3.ArraySort(z3.BitVecSort(64), rowsort)),
+                     scalar=proto.scalar_sort, tyname=proto.tyname)
+            eng.memo[key] = h
+        return RowSeq(ety, h, self.id, self.length(eng))
+
+    def slice(self, eng):
+        return SliceRef(self.seq(eng), bv(0, 64), self.length(eng))
+
+    def __repr__(self):
+        return f'arr({_short(self.id)})'
+
+
+class RowSeq(SymSeq):
+    """a SymSeq whose array is row `rid` of a shared two-level heap"""
+
+    def __init__(self, elem_ty, heap, rid, length):
+        self._heap = heap
+        self._rid = rid
+        self.elem_ty = elem_ty
+        self.len = length
+        self.scalar_sort = heap['scalar']
+        self.tyname = heap['tyname']
+
+    @property
+    def arr(self):
+        return z3.Select(self._heap['H'], self._rid)
+
+    @arr.setter
+    def arr(self, value):
+        self._heap['H'] = z3.Store(self._heap['H'], self._rid, value)
+
+    def copy(self):
+        return self
 
 
 class AbsUVec:
@@ -259,6 +376,8 @@ class VmWorld:
                 a = ty_args(t)
                 h = 'ObjRef<' + (ty_head(a[0]) if a else '?') + '>'
             oid = backing.child('id').leaf(e, z3.BitVecSort(64))
+            if not str(backing.key()).startswith('new'):
+                e.add_constraint(allocated0(oid))
             return AbsObj(oid, h)
         eng.materialiser(OBJ_TYPES, mat_obj)
 
@@ -357,9 +476,23 @@ class VmWorld:
             return SymSeq(s_.seq.elem_ty, arr, e.slice_len(s_), s_.seq.scalar_sort, s_.seq.tyname)
         m(r'^(std|core|alloc)::slice::<impl \[T\]>::to_vec$', m_to_vec)
 
-        def mat_captures(e, ty, backing):
-            return AbsObj(backing.child('id').leaf(e, z3.BitVecSort(64)), 'Captures')
-        eng.materialiser(r'^(laythe_core::)?(captures::)?Captures$', mat_captures)
+        # managed arrays: identity + (length, elements) ------------------------------------------------
+        def mat_array(e, ty, backing):
+            return AbsArr(backing.child('id').leaf(e, z3.BitVecSort(64)), ty_args(norm_ty(ty))[0])
+        eng.materialiser(r'^(laythe_core::)?(collections::)?(array::)?Array<.*>$', mat_array)
+
+        def arr_of(e, v):
+            while isinstance(v, Ref):
+                v = v.cell.get(e)
+            if not isinstance(v, AbsArr):
+                raise Unsupported('expected managed array, got ' + type(v).__name__)
+            return v
+        m(r'^<(laythe_core::)?(collections::)?(array::)?Array as (std::ops::|core::ops::)?Deref(Mut)?>::deref(_mut)?$',
+          lambda e, a, c: arr_of(e, a[0]).slice(e))
+        m(r'^(laythe_core::)?(collections::)?(array::)?Array::len$', lambda e, a, c: arr_of(e, a[0]).length(e))
+        m(r'^(laythe_core::)?(collections::)?(array::)?Array::is_empty$', lambda e, a, c: as_bool(z3.simplify(arr_of(e, a[0]).length(e) == 0)))
+        m(r'^<(laythe_core::)?(collections::)?(array::)?Array as (std::cmp::|core::cmp::)?PartialEq>::(eq|ne)$',
+          lambda e, a, c: (lambda r: r if c.norm.endswith('::eq') else b_not(r))(as_bool(z3.simplify(arr_of(e, a[0]).id == arr_of(e, a[1]).id))))
 
         # object references ------------------------------------------------
         def obj_of(e, v):
@@ -491,6 +624,29 @@ class VmWorld:
             e.path_state['events'].append(('alloc', c.norm))
             dty = norm_ty(c.dest_ty) if c.dest_ty else 'ObjectRef'
             o = e.materialise(dty, NameBacking(f'new{n}'))
+            new_ids = e.path_state.setdefault('new_ids', [])
+            oid = getattr(o, 'id', None)
+            if oid is not None:
+                e.add_constraint(z3.Not(allocated0(oid)))
+                for other in new_ids:
+                    e.add_constraint(oid != other)
+                new_ids.append(oid)
+            if isinstance(o, AbsArr):
+                src = a[1]
+                while isinstance(src, Ref):
+                    src = src.cell.get(e)
+                if isinstance(src, ConcSeq):
+                    src = SliceRef(src, bv(0, 64), bv(len(src.cells), 64))
+                if isinstance(src, SliceRef):
+                    ln = e.slice_len(src)
+                    e.add_constraint(arr_len(o.id) == ln)
+                    cn = conc(z3.simplify(ln))
+                    if cn is not None:
+                        sq = o.seq(e)
+                        for i in range(cn):
+                            sq.store(e, bv(i, 64), e.copy_value(e.seq_cell(src.seq, z3.simplify(src.start + i)).get(e)))
+                    else:
+                        e.note('array allocated from a slice of symbolic length: contents unconstrained')
             if c.norm.endswith('manage_str') and isinstance(o, AbsObj):
                 # interned: the result is the string object whose content is the argument
                 e.add_constraint(string_content(e, o) == str_term(e, a[1]))
@@ -583,7 +739,6 @@ class VmWorld:
             r'^<(laythe_core::)?(object::)?(\w+::)*(LyStr|List|Tuple|Instance) as .*>::\w+$',
             r'^(cache::)?InlineCache::\w+$',
             r'^(laythe_lib::)?(\w+::)*(BuiltIn\w*|Primitives\w*)::\w+$',
-            r'^(laythe_core::)?(captures::)?Captures::\w+$',
             r'^(vm::)?Vm::(value_class|inline_cache|inline_cache_mut|read_constant|read_string|queue_blocked_fiber|create_fiber|'
             r'import_module|extract_import_path|full_import_path|build_import|stack_unwind|context_switch)$',
             r'^(laythe_core::)?(hooks::)?(GcHooks|Hooks)::new$',
